@@ -485,6 +485,16 @@ def method(eng: Engine, e: ast.Call, st: State, recv: V, m: str, args: List[V], 
             return [(st, VScalar(r, T.atom))]
         if m == "__repr__":
             return [(st, VStr(repr(recv.s)))]
+    if isinstance(recv, VScalar) and recv.ty.kind == "atom" and m == "join":
+        # symbolic separator: same uninterpreted function as for a literal separator; calls recorded separately (join_calls holds literal separators)
+        S = eng.S
+        lst = eng.list_of(args[0], st, e)
+        fn = S.func("str_join", S.Atom, z3.ArraySort(z3.IntSort(), S.Atom), z3.IntSort(), S.Atom)
+        r = fn(recv.z, lst.arr, lst.n)
+        st.assume(r != S.NONE)
+        st.ghost["join_calls_sym"] = list(st.ghost.get("join_calls_sym", [])) + [(recv.z, lst)]
+        eng.registry.note("sep.join(list) treated as an uninterpreted function of the separator and the list of pieces")
+        return [(st, VScalar(r, T.atom))]
     if isinstance(recv, VScalar) and recv.ty.kind == "int" and m == "__repr__":
         return builtin(eng, e, st, "str", [recv], {})
     if isinstance(recv, VScalar) and recv.ty.kind in ("atom", "oatom") and m in ("__eq__",):
